@@ -122,7 +122,7 @@ func TestC06GraphTopoRandom(t *testing.T) {
 // history: adds that were refused because they would have closed a cycle
 // (and whose dependencies had no node of their own yet) leave nothing behind.
 func TestC06GraphAfterRejects(t *testing.T) {
-	col := evid.New("C06", "graph-topo-after-rejects", "random DAGs on 3..10 nodes inserted in a random order, each node through AddProvider or AddProviderDeferred; before any insertion up to 3 cyclic AddProvider calls (a provider that needs itself next to random other nodes, provided or not yet provided) are made and must be refused; after all insertions TopologicalSort (twice), DetectCycles and the depth/reachability queries are validated against the reference digraph, which the refused adds did not change; non-trivial = a refused add named a node that had no provider yet and was provided later")
+	col := evid.New("C06", "graph-topo-after-rejects", "random DAGs on 3..10 nodes inserted in a random order, each node through AddProvider or AddProviderDeferred; before any insertion up to 3 cyclic AddProvider calls (a provider that needs itself next to random other nodes, provided or not yet provided) are made and must be refused; after all insertions TopologicalSort (twice), DetectCycles and the depth/reachability queries are validated against the reference digraph, which the refused adds did not change; a temporary node is added now and then, depended upon by later insertions and removed again - also while deferred insertions are pending -, which takes the edges to it away; non-trivial = a refused add named a node that had no provider yet and was provided later, or an inserted node depended on the temporary node")
 	defer col.Flush()
 	rapid.Check(t, func(rt *rapid.T) {
 		n := rapid.IntRange(3, 10).Draw(rt, "n")
@@ -137,11 +137,34 @@ func TestC06GraphAfterRejects(t *testing.T) {
 			}
 		}
 		order := rapid.Permutation(seq(n)).Draw(rt, "order")
-		s := newGSys(n)
+		s := newGSys(n + 1) // node n is a temporary node: added, depended upon, removed again
 		added := map[int]bool{}
 		placeholderLater := false
+		tempLive, tempUsed := false, false
+		var tempDeps []int
 		var hist []string
+		removeTemp := func() {
+			hist = append(hist, fmt.Sprintf("remove %d (pending=%v)", n, s.pending))
+			s.remove(n)
+			tempLive = false
+		}
 		for _, v := range order {
+			if tempLive && rapid.Bool().Draw(rt, "rmTemp") {
+				removeTemp()
+			}
+			if !tempLive && rapid.IntRange(0, 3).Draw(rt, "addTemp") == 0 {
+				var td []int
+				for w := 0; w < n; w++ {
+					if added[w] && rapid.IntRange(0, 2).Draw(rt, "td") == 0 {
+						td = append(td, w)
+					}
+				}
+				hist = append(hist, fmt.Sprintf("deferred %d<-%v (temporary)", n, td))
+				if err := s.addDeferred(n, td); err != nil {
+					rt.Fatalf("%v: %v", hist, err)
+				}
+				tempLive, tempDeps = true, td
+			}
 			for k := rapid.IntRange(0, 3).Draw(rt, "rejects"); k > 0; k-- {
 				x := rapid.IntRange(0, n-1).Draw(rt, "x")
 				deps := []int{x}
@@ -165,14 +188,26 @@ func TestC06GraphAfterRejects(t *testing.T) {
 					rt.Fatalf("%v: AddProvider(%d<-%v) needs itself and was accepted", hist, x, deps)
 				}
 			}
+			dv := depsOf[v]
+			below := true // (what the temporary node depends on cannot depend on v: edges only lead to lower ranks)
+			for _, w := range tempDeps {
+				if rank[w] >= rank[v] {
+					below = false
+				}
+			}
+			if tempLive && below && rapid.Bool().Draw(rt, "useTemp") {
+				// depends on the temporary node for now: the edge goes when that node is removed
+				dv = append(append([]int(nil), dv...), n)
+				tempUsed = true
+			}
 			if rapid.Bool().Draw(rt, "deferred") {
-				hist = append(hist, fmt.Sprintf("deferred %d<-%v", v, depsOf[v]))
-				if err := s.addDeferred(v, depsOf[v]); err != nil {
+				hist = append(hist, fmt.Sprintf("deferred %d<-%v", v, dv))
+				if err := s.addDeferred(v, dv); err != nil {
 					rt.Fatalf("%v: %v", hist, err)
 				}
 			} else {
-				hist = append(hist, fmt.Sprintf("add %d<-%v", v, depsOf[v]))
-				if rej, err := s.addImmediate(v, depsOf[v]); err != nil || rej {
+				hist = append(hist, fmt.Sprintf("add %d<-%v", v, dv))
+				if rej, err := s.addImmediate(v, dv); err != nil || rej {
 					rt.Fatalf("%v: rejected=%v err=%v", hist, rej, err)
 				}
 			}
@@ -188,12 +223,15 @@ func TestC06GraphAfterRejects(t *testing.T) {
 				}
 			}
 		}
+		if tempLive {
+			removeTemp()
+		}
 		if s.pending {
 			if err := s.detect(); err != nil {
 				rt.Fatalf("%v: %v", hist, err)
 			}
 		}
-		col.Case(placeholderLater, fmt.Sprint(hist), fmt.Sprint(hist))
+		col.Case(placeholderLater || tempUsed, fmt.Sprint(hist), fmt.Sprint(hist))
 		if err := s.checkQueries(); err != nil {
 			rt.Fatalf("%v: %v", hist, err)
 		}
